@@ -10,8 +10,8 @@ from __future__ import annotations
 
 import ast
 
-from ..cfg import CFG
-from ..core import AnalysisError, FuncNode, call_name, calls_in, const_str, last_attr, names_in, src
+from ..cfg import CFG, facts_at
+from ..core import AnalysisError, FuncNode, call_name, calls_in, const_str, kwarg, last_attr, names_in, src
 from ..filerules import FILE, missing_path_obligations, walk_join_obligations
 
 EXPLANATION = (
@@ -68,6 +68,33 @@ def run(ctx):
                         cm.rel,
                         x.lineno,
                     )
+
+    # a copy method hands back its destination argument: whatever path is taken (including "destination exists, nothing copied") the returned
+    # object must have been rehashed -- it may carry a hash cached before the file on disk was last changed.
+    ncopy = 0
+    for root in roots + [m.cls("Dir")]:
+        for cm, c in repo.subclasses(root):
+            for st in c.body:
+                if not isinstance(st, FuncNode) or st.name != "copy_to" or ("copy_to-ret", id(st)) in seen:
+                    continue
+                seen.add(("copy_to-ret", id(st)))
+                params = {a.arg for a in st.args.args[1:]}
+                cfgc = CFG(st)
+                for nn in cfgc.nodes:
+                    if nn.kind == "stmt" and isinstance(nn.ast, ast.Return) and isinstance(nn.ast.value, ast.Name) and nn.ast.value.id in params:
+                        obj = nn.ast.value.id
+                        ncopy += 1
+                        upd = [cfgc.node_of(u) for u in calls_in(st, shallow=True) if call_name(u) == f"{obj}.update_hash"]
+                        r1.check(
+                            bool(upd) and cfgc.must_pass(cfgc.entry, upd, targets=[nn]),
+                            f"{cm.rel}:{c.name}.copy_to:return-{obj}@{'skip' if any(f.startswith('skip_if_exists') and t for f, t in facts_at(cfgc, nn)) else 'copy'}",
+                            f"{c.name}.copy_to returns `{obj}` (line {nn.lineno}) on a path without `{obj}.update_hash()`: the object may hold a hash cached before the file was last modified, so the file "
+                            "value returned by a redun copy has a recorded hash that differs from a fresh hash of the filesystem state",
+                            cm.rel,
+                            nn.lineno,
+                        )
+    if ncopy < 2:
+        raise AnalysisError(f"only {ncopy} `return <destination>` sites found in copy_to methods", "copy_to")
 
     r2 = ctx.rule("C30.2", "hash computations are total on a missing path", floor=12)
     for construct, ok, msg, rel, line in missing_path_obligations(repo):
@@ -144,3 +171,36 @@ def run(ctx):
     rw = ctx.rule("C30.6", "directory member hashes address each member at its own path (os.walk join idiom)", floor=1)
     for construct, ok, msg, rel, line in walk_join_obligations(repo):
         rw.check(ok, construct, msg, rel, line)
+
+    # ---- C30.7 S3 directory listings are bounded by the directory, not by a name prefix ----
+    r7 = ctx.rule("C30.7", "S3 listings for a directory use a '/'-terminated prefix or filter the returned keys by '<dir>/'", floor=2)
+    s3c = m.cls("S3FileSystem")
+    nlist = 0
+    for st in s3c.body:
+        if not isinstance(st, FuncNode):
+            continue
+        for c in calls_in(st):
+            pv = kwarg(c, "Prefix")
+            if pv is None:
+                continue
+            nlist += 1
+            v = pv
+            if isinstance(v, ast.Name):
+                defs = [a for a in ast.walk(st) if isinstance(a, ast.Assign) and any(isinstance(t, ast.Name) and t.id == v.id for t in a.targets)]
+                if len(defs) == 1:
+                    v = defs[0].value
+            terminated = isinstance(v, ast.BinOp) and isinstance(v.op, ast.Add) and isinstance(v.right, ast.Constant) and v.right.value == "/"
+            filtered = any(
+                isinstance(x, ast.Call) and isinstance(x.func, ast.Attribute) and x.func.attr == "startswith" and x.args and isinstance(x.args[0], ast.BinOp) and isinstance(x.args[0].right, ast.Constant) and x.args[0].right.value == "/"
+                for x in ast.walk(st)
+            )
+            r7.check(
+                terminated or filtered,
+                f"{m.rel}:S3FileSystem.{st.name}:Prefix",
+                f"S3FileSystem.{st.name} lists objects with Prefix={src(pv)} (no trailing '/') and does not filter the keys: for the directory s3://b/dir the listing also returns s3://b/dir2/x and "
+                "s3://b/dir.bak, so the hash of a Dir changes when an unrelated sibling changes and is not the hash of the directory's own state",
+                m.rel,
+                c.lineno,
+            )
+    if nlist < 2:
+        raise AnalysisError(f"only {nlist} S3 listings with Prefix= found in S3FileSystem", "S3FileSystem")
